@@ -60,6 +60,8 @@ def plan(tier, seed):
                 if item.startswith("nested:") and raw:
                     continue
                 specs.append({"kind": "ptycho", "store": store, "raw": raw, "item": item, "_must_run": True})
+        for item in ("_snapshots", "type:ndarray", "empty"):
+            specs.append({"kind": "ptycho_shared", "store": store, "item": item, "_must_run": True})
     nfam = N_FAMILIES[tier]
     if tier == "thorough":
         # all 2^8 subsets of the pool on every graph family (name skipping only), alternating stores
@@ -330,7 +332,10 @@ def _run_ptycho(spec, idx, ctx):
     try:
         for form, arg in forms.items():
             p = os.path.join(base, form + ext)
+            before = list(arg) if isinstance(arg, (list, tuple)) else arg
             pt.save(p, store=store, skip=arg, save_raw_data=raw, verbose=0)
+            after = list(arg) if isinstance(arg, (list, tuple)) else arg
+            ctx.check(after == before, "skip_argument_mutated", lambda: "Ptychography.save changed the caller's skip argument: %r -> %r" % (before, after), api="Ptychography.save", form=form, **f)
             r = load(p)
             roots[form], keys[form] = r, _keys(r, dq)
             if isinstance(val, str):
@@ -372,9 +377,58 @@ def _run_ptycho(spec, idx, ctx):
     ctx.observe(kind="ptycho", store=store, save_raw_data=raw, item=item, root_attributes=len(vars(roots["list"])), all_keys=len(keys["list"]))
 
 
+def _run_ptycho_shared(spec, idx, ctx):
+    """one skip list object reused for consecutive Ptychography.save calls: the default save first (which adds its implicit
+    '_dset' / 'dset' skips), then save_raw_data=True - the second file must contain the dataset, exactly like a save with a
+    fresh list, and the caller's list must never change."""
+    import numpy as np
+    import torch
+
+    load, dq = ctx.state["load"], ctx.state["deq"]
+    pt = _ptycho(ctx)
+    store, item = spec["store"], spec["item"]
+    val = [] if item == "empty" else [{"Tensor": torch.Tensor, "ndarray": np.ndarray}[item[5:]] if item.startswith("type:") else item]
+    base = os.path.join(ctx.tmp, "c14", "case%d" % idx)
+    shutil.rmtree(base, ignore_errors=True)
+    os.makedirs(base)
+    ext = ".zip" if store == "zip" else ""
+    f = {"store": store, "item": item, "nested_kind": "plain"}
+    try:
+        shared = list(val)
+        p1, p2, p3, p4 = (os.path.join(base, n + ext) for n in ("first_default", "second_raw", "fresh_raw", "third_default"))
+        pt.save(p1, store=store, skip=shared, verbose=0)
+        ctx.check(shared == val, "skip_argument_mutated", lambda: "Ptychography.save (default) changed the caller's list: %r -> %r" % (val, shared), api="Ptychography.save", form="shared_list", step=1, **f)
+        pt.save(p2, store=store, skip=shared, save_raw_data=True, verbose=0)
+        ctx.check(shared == val, "skip_argument_mutated", lambda: "Ptychography.save (save_raw_data=True) changed the caller's list: %r -> %r" % (val, shared), api="Ptychography.save", form="shared_list", step=2, **f)
+        pt.save(p3, store=store, skip=list(val), save_raw_data=True, verbose=0)
+        pt.save(p4, store=store, skip=shared, verbose=0)
+        r1, r2, r3, r4 = load(p1), load(p2), load(p3), load(p4)
+        ctx.check("_dset" in vars(r2), "shared_skip_list_dropped_dataset", "second save (save_raw_data=True) with the list object already used by a default save: '_dset' is missing from the file "
+                  "although it was never named in skip", api="Ptychography.save", **f)
+        k2, k3 = _keys(r2, dq), _keys(r3, dq)
+        ctx.check(k2 == k3, "shared_skip_list_differs_from_fresh", lambda: "save_raw_data=True with a reused list vs a fresh list: extra=%s missing=%s" % (sorted(k2 - k3)[:6], sorted(k3 - k2)[:6]), api="Ptychography.save", **f)
+        ctx.check(_keys(r4, dq) == _keys(r1, dq), "shared_skip_list_differs_from_fresh", lambda: "third (default) save with the reused list differs from the first", api="Ptychography.save", **f)
+        ctx.check("_dset" not in vars(r1), "ptycho_survivors", "default save kept '_dset'", **f)
+        try:
+            from quantem.diffractive_imaging.ptychography import Ptychography
+
+            r5 = Ptychography.from_file(p2, verbose=0)
+            ctx.check(getattr(r5, "_dset", None) is not None, "shared_skip_list_dropped_dataset", "Ptychography.from_file(second file): no dataset", api="from_file", **f)
+            ctx.count("ptycho_from_file_ok")
+        except Exception:  # noqa: BLE001
+            ctx.count("ptycho_from_file_failed")
+    finally:
+        shutil.rmtree(base, ignore_errors=True)
+    ctx.count("ptycho_cases")
+    ctx.nontrivial("ptycho_shared|%s|%s" % (store, item), True)
+    ctx.observe(kind="ptycho_shared", store=store, item=item)
+
+
 def run_case(spec, idx, ctx):
     if spec.get("kind") == "ptycho":
         return _run_ptycho(spec, idx, ctx)
+    if spec.get("kind") == "ptycho_shared":
+        return _run_ptycho_shared(spec, idx, ctx)
     sg, load, dq = ctx.state["sg"], ctx.state["load"], ctx.state["deq"]
     tmap = ctx.state["types"]
     store = spec["store"]
@@ -396,7 +450,13 @@ def run_case(spec, idx, ctx):
         skip_arg = skip_arg[0]  # the API also accepts a single str / type
     try:
         x.save(p_plain, store=store)
+        # the same argument object is handed to save() and later to load(): neither may change it
+        if isinstance(skip_arg, list) and idx % 2:
+            skip_arg = tuple(skip_arg)
+        arg_before = list(skip_arg) if isinstance(skip_arg, (list, tuple)) else skip_arg
         x.save(p_skip, store=store, skip=skip_arg)
+        ctx.check((list(skip_arg) if isinstance(skip_arg, (list, tuple)) else skip_arg) == arg_before, "skip_argument_mutated", lambda: "AutoSerialize.save changed its skip argument: %r -> %r" % (arg_before, skip_arg),
+                  api="AutoSerialize.save", store=store, nested_kind="plain")
 
         r0 = load(p_plain)  # the no-skip round trip
 
@@ -417,7 +477,12 @@ def run_case(spec, idx, ctx):
         # (3) both (S2 == S unless the spec says otherwise)
         rem3 = []
         exp3 = _prune(r0, x, set(S) | set(S2), T, dq, rem3)
-        got3 = _load(ctx, load, p_skip, S2, dict(fields, when="both"))
+        S2_arg = list(S2) if idx % 2 else tuple(S2)
+        got3 = _load(ctx, load, p_skip, S2_arg, dict(fields, when="both"))
+        ctx.check(list(S2_arg) == list(S2), "skip_argument_mutated", lambda: "load changed its skip argument: %r -> %r" % (S2, S2_arg), api="load", store=store, nested_kind="plain")
+        if isinstance(skip_arg, (list, tuple)):
+            # and the save-time argument object reused at load time gives the same object as (3) with S2 = S
+            ctx.check(list(skip_arg) == arg_before, "skip_argument_mutated", lambda: "skip argument changed by a later call: %r -> %r" % (arg_before, skip_arg), api="load", store=store, nested_kind="plain")
         if got3 is None:
             return _finish(ctx, spec, x, exp1, rem1, S, Tn, S2, store)
         _judge(ctx, got3, exp3, "save_and_load_skip", set(S) | set(S2), dict(fields, when="both"), "load(save(x, skip=S+T), skip=S2) vs pruned no-skip round trip", hp)
